@@ -251,7 +251,7 @@ def opRunProg (args : List String) : String :=
   | [exec, kind, prog, hay, start] =>
     match start.toNat? with
     | some st =>
-      let r := VM.runProgLine exec kind prog hay st 4000000
+      let r := VM.runProgLine exec kind prog hay st 3200000
       -- a reported well-formedness failure of the dumped program is part of the answer
       -- the decidable hypotheses of the C06 safety theorems, evaluated on the dumped program:
       -- wfProg, the boundary certificate, look-around confinement, the capture-ordering certificate
